@@ -88,7 +88,12 @@ func HarnessC20Installer() {
 	}
 	req := zzChooseRef("req")
 
-	nExisting := zz.Choose("existing", zz.Bound(2, 3))
+	maxExisting := zz.Bound(2, 3)
+	if pkgKind > 0 {
+		// configurations and functions share the code path: one existing package at most
+		maxExisting = 2
+	}
+	nExisting := zz.Choose("existing", maxExisting)
 	type inst struct {
 		name string
 		ref  zzRef
